@@ -859,7 +859,8 @@ def rule_open_cache_init(ctx):
     prog = ctx.prog
     n = 0
     for f in prog.lib_funcs():
-        if not any(x[0] == "asg" and mem_field(x[2]) == ("filerec_t", "refcount") and is_int(x[3], 1) for _b, _i, _s, x in f.nodes(True)):
+        # `refcount = 1`, a plain assignment: `refcount += 1` (one more reference to a record that is already live) is not an open
+        if not any(x[0] == "asg" and x[1] == "=" and mem_field(x[2]) == ("filerec_t", "refcount") and is_int(x[3], 1) for _b, _i, _s, x in f.nodes(True)):
             continue
         n += 1
         key = "OPENINIT:%s" % f.name
